@@ -154,6 +154,8 @@ def check_pair(t1, t2, recursive):
     from watchdog.utils.dirsnapshot import EmptyDirectorySnapshot
 
     dsub = s2 - s1
+    if not isinstance(dsub, DirectorySnapshotDiff):
+        raise Violation(f"snapshot2 - snapshot1 gives {dsub!r}, not a DirectorySnapshotDiff", "sub-operator")
     if {k: sorted(map(repr, v)) for k, v in _lists(dsub).items()} != {k: sorted(map(repr, v)) for k, v in L.items()}:
         raise Violation(f"snapshot2 - snapshot1 differs from DirectorySnapshotDiff(snapshot1, snapshot2): {_lists(dsub)} vs {L}", "sub-operator")
     de = DirectorySnapshotDiff(EmptyDirectorySnapshot(), s2)
